@@ -17,7 +17,7 @@ META = {
     "assumptions": [
         "bool is an int; BOOL encodes any object by truthiness; int is accepted where a float is expected",
         "strings longer than a FixedSizeString capacity are not in the invalid alphabet (C02 governs truncation)",
-        "zero-size element types under unbounded arrays are outside the grammar",
+        "zero-size element types under unbounded arrays are outside the type grammar; a separate shard demands only that decoding them terminates (value or DataError)",
         "a value is invalid for a type iff the reference codec rejects it",
     ],
 }
@@ -28,7 +28,37 @@ CountingIO = TS.CountingIO
 
 
 def shards(tier, seed):
-    return list(range(len(TS.type_space(tier)))) + ["epath-limits"]
+    return list(range(len(TS.type_space(tier)))) + ["epath-limits", "zero-width"]
+
+
+def check_zero_width(rep):
+    """Unbounded arrays whose element takes no bytes: whatever the answer, the call must come back (an empty list or DataError)."""
+    import pycomm3.cip as C
+    from pycomm3.exceptions import DataError
+    from vmc.core.explore import BudgetExceeded
+
+    types = {
+        "Array(None, Array(0, UINT))": lambda: C.Array(None, C.Array(0, C.UINT)), "Array(None, Struct())": lambda: C.Array(None, C.Struct()),
+        "Array(None, n_bytes(0))": lambda: C.Array(None, C.n_bytes(0)), "Array(None, Struct(Array(0, DINT)))": lambda: C.Array(None, C.Struct(C.Array(0, C.DINT)("z"))),
+        "Struct(a:USINT, rest:Array(None, Array(0, SINT)))": lambda: C.Struct(C.USINT("a"), C.Array(None, C.Array(0, C.SINT))("rest")),
+        "Array(None, WORD[0])": lambda: C.Array(None, C.Array(0, C.WORD)),
+    }
+    for name, mk in types.items():
+        for buf in (b"", b"\x00", b"\x01\x02\x03", bytes(64)):
+            try:
+                T = mk()
+                st = TS.CountingIO(buf, budget=4096)
+                out = ("ok", T.decode(st))
+            except DataError:
+                out = ("DataError",)
+            except BudgetExceeded:
+                out = ("non-terminating",)
+            except Exception as e:  # noqa
+                out = ("foreign", type(e).__name__)
+            ok = out[0] in ("ok", "DataError")
+            rep.case(("zero-width", name, len(buf)), outcome=out[0])
+            if not ok:
+                rep.violation(f"zero-width-elements/{out[0]}", f"{name}.decode({len(buf)} bytes) -> {out!r:.80}: the call must terminate with a value or DataError", {"kind": "zero-width"})
 
 
 def check_epath_limits(rep):
@@ -254,6 +284,9 @@ def run_shard(shard, tier, seed):
     if shard == "epath-limits":
         check_epath_limits(rep)
         return rep
+    if shard == "zero-width":
+        check_zero_width(rep)
+        return rep
     check_node(rep, TS.type_space(tier)[shard], tier, shard)
     return rep
 
@@ -261,6 +294,12 @@ def run_shard(shard, tier, seed):
 def replay(r):
     from pycomm3.exceptions import DataError
 
+    if r.get("kind") == "zero-width":
+        rep = Report()
+        check_zero_width(rep)
+        for s_, vs in rep.violations.items():
+            print("  violates:", s_, "::", vs[0].msg[:300])
+        return not rep.violations
     if r.get("kind") == "epath-limits":
         rep = Report()
         check_epath_limits(rep)
